@@ -47,6 +47,7 @@ RULE = ("scenario = draw world as in C06 (stdout is a tty, smaller sizes); fault
 PROBES = ["kitty_chunked_transfer", "cut_inside_apc_payload", "cut_inside_csi", "cut_inside_utf8_glyph", "cut_inside_osc",
           "interrupt_during_sleep", "interrupt_in_frame_2_or_later", "interrupt_in_render",
           "retained_remainder_delivered_later", "old_api", "new_api", "still_image_propagates",
+          "interrupted_flush_delivers_prefix", "write_cut_inside_earlier_buffered_data",
           "animation_ends_silently"]
 COMPONENTS = {
     "real": ["Renderable.draw/_animate_/_init_render_/_handle_interrupted_draw_ call sites",
@@ -203,16 +204,24 @@ def run(ch, ctx, fault=None):
                 # fault sites: every call before the first clean-up write
                 sites = []
                 wi = 0
+                fi = 0
                 first_render_pos = None
                 for pos, (kind, kk) in enumerate(seq):
                     if kind == "out.write":
                         text = out.write_log[wi]
+                        pend = out.pend_log[wi] if wi < len(out.pend_log) else b""
                         wi += 1
                         if (CLEANUP_NEW if api == "new" else CLEANUP).match(text):
                             break
-                        sites.append((kind, kk, text))
-                    elif kind in ("out.flush", "sleep", "render"):
-                        sites.append((kind, kk, None))
+                        sites.append((kind, kk, text, pend))
+                    elif kind == "out.flush":
+                        # what is still buffered when the flush starts: an interrupted flush
+                        # delivers a prefix of it
+                        pending = out.flush_log[fi] if fi < len(out.flush_log) else b""
+                        fi += 1
+                        sites.append((kind, kk, pending or None, b""))
+                    elif kind in ("sleep", "render"):
+                        sites.append((kind, kk, None, b""))
                         if kind == "render" and first_render_pos is None:
                             first_render_pos = len(sites) - 1
                 ctx.extra["sites"] = sites
@@ -240,6 +249,10 @@ def run(ch, ctx, fault=None):
                 ctx.probe("interrupt_in_frame_2_or_later")
             if f["kind"] == "out.flush" and f.get("when") == "before":
                 ctx.nontrivial = True
+                if f.get("action") == "partial":
+                    ctx.probe("interrupted_flush_delivers_prefix")
+            if f.get("in_pending"):
+                ctx.probe("write_cut_inside_earlier_buffered_data")
 
             def post_state(phase):
                 dw.terminal_restored(vt, tty, entry, True, dict(inf, phase=phase), where,
@@ -288,7 +301,7 @@ def faults(ctx, ch):
     fr = ctx.extra.get("first_render")
     dense = ctx.cfg.get("dense")
     frame = 0
-    for idx, (kind, kk, text) in enumerate(sites):
+    for idx, (kind, kk, text, pend) in enumerate(sites):
         if kind == "render":
             frame += 1
         after_fr = fr is not None and idx >= fr
@@ -298,6 +311,14 @@ def faults(ctx, ch):
         err = {"out.write": "OSError", "out.flush": "OSError", "render": "RuntimeError"}.get(kind)
         if err:
             out.append(dict(base, when="before", exc=err))
+        if kind == "out.flush" and text:
+            for cut in cut_points(text, dense):
+                cls = classify_cut(text, cut)
+                for retain in (False, True):
+                    out.append(dict(base, when="before", action="partial", cut=cut,
+                                    exc="KeyboardInterrupt", retain=retain, cls=cls))
+                out.append(dict(base, when="before", action="partial", cut=cut, exc="OSError",
+                                retain=False, cls=cls))
         if kind == "out.write" and text:
             data = text.encode("utf-8")
             for cut in cut_points(data, dense):
@@ -309,4 +330,15 @@ def faults(ctx, ch):
                 # delivered a prefix too
                 out.append(dict(base, when="before", action="partial", cut=cut, exc="OSError",
                                 retain=False, cls=cls))
+            if pend:
+                # this write pushes out data buffered by earlier writes (line-buffered tty: a
+                # write containing CR/LF flushes everything): the device may stop inside those
+                for cut in cut_points(pend, dense):
+                    cls = classify_cut(pend, cut)
+                    for retain in (False, True):
+                        out.append(dict(base, when="before", action="partial", cut=0,
+                                        cut_total=cut, exc="KeyboardInterrupt", retain=retain,
+                                        cls=cls, in_pending=True))
+                    out.append(dict(base, when="before", action="partial", cut=0, cut_total=cut,
+                                    exc="OSError", retain=False, cls=cls, in_pending=True))
     return out
